@@ -15,7 +15,7 @@ factory) consumes one fault token — over every placement of failures, in parti
 injected after the plaintext exists.  Cache modes are unrestricted (never / simple / bounded).
 -/
 namespace AsherahVerif.Props.C10
-open AsherahVerif.Env
+open AsherahVerif.Env AsherahVerif.Env.Res
 
 /-- **bufs_wiped**: if no ledger buffer is dirty when a public operation starts, none is dirty when
 it returns — whatever the operation, its result (success or any error) and its fault list.  Every
